@@ -168,6 +168,8 @@ def run(prop, tier, seed):
            if k in ("step_bound", "wall_timeout", "replay_diverged", "crashed", "hung")}
     if bad and not res.violations:
         raise V.ToolError(f"driver outcomes without a verdict: {bad}")
+    if not res.violations:
+        round_mc.bind_l2(res, prop, trace_path, "impl->spec")
 
     if prop == "C08":
         scs2 = multi_thread_panic_scenarios(tier, seed)
@@ -176,6 +178,8 @@ def run(prop, tier, seed):
         proj2, _ = V.project(tp2, KEEP)
         V.validate_monitor(res, prop, "RoundTrace", f"RoundTrace_{prop}", proj2, "impl->spec:panics",
                            make_replay, known_filter(prop), max_rounds=400)
+        if not res.violations:
+            round_mc.bind_l2(res, prop, tp2, "impl->spec:panics")
 
     if not res.violations:
         negative_control(res, prop, proj)
